@@ -1,3 +1,4 @@
+import SFV.Gen.CwlOpsGen
 /-! # CwlOps — the dataflow operators the CWL translator composes, next to the CWL standard's definitions
 
 StreamFlow side (as the code is): tokens carry tags; `ScatterStep` appends the element index, the cartesian /
@@ -91,11 +92,20 @@ deriving DecidableEq, Repr
 
 /-- `CWLEmptyScatterConditionalStep._on_false` for two scatter inputs of element type γ: the value put on the
 output port when some scatter input is empty (`none`: no input is empty, the scatter runs) -/
+def emptyTriggered (sizes : List Nat) : Bool :=
+  match Gen.CwlOpsGen.emptyGuard with
+  | .allNonEmpty => sizes.any (· == 0)      -- `_eval` = all inputs non-empty; the short cut fires otherwise
+  | .anyNonEmpty => sizes.all (· == 0)
+
 def emptyScatterFlat (sizes : List Nat) : Option (List γ) :=
-  if sizes.any (· == 0) then some [] else none
+  if emptyTriggered sizes then some [] else none
 
 def emptyScatterNested (sizes : List Nat) : Option (List (List γ)) :=
-  if sizes.any (· == 0) then some (sizes.map (fun _ => [])) else none
+  if emptyTriggered sizes then
+    some (match Gen.CwlOpsGen.nestedEmpty with
+      | .onePerInput => sizes.map (fun _ => [])
+      | .none => [])
+  else none
 
 /-- scatter over one input, any arrival order of the results -/
 def sfScatter1 (xs : List α) (arrival : List (Tok γ)) : List γ :=
@@ -132,6 +142,11 @@ def dedupKeys : List (String × α) → List (String × α)
 
 def sfMergeNested (srcs : List (String × α)) : List α := (dedupKeys srcs).map (·.2)
 
+/-- `ListMergeCombinator.combine` at run time: the underlying `DotProductCombinator` stores the token of every input port as
+it arrives (any order); when all ports are present the output lists them **by `input_names`**, not by arrival -/
+def collectByName (arrivals : List (String × α)) (names : List String) : List (Option α) :=
+  names.map (fun n => arrivals.lookup n)
+
 /-- a source as `_flatten_token_list` sees it: a plain token or a `ListToken` whose elements carry tags -/
 inductive TSrc (α : Type) where
   | one (v : α)
@@ -146,11 +161,17 @@ def sortByLast : List (Tok α) → List (Tok α)
   | [] => []
   | t :: r => insertByLast t (sortByLast r)
 
+/-- the `sorted(..., key=…)` of `_flatten_token_list` (key regenerated from the source) -/
+def flattenSort (l : List (Tok α)) : List (Tok α) :=
+  match Gen.CwlOpsGen.flattenKey with
+  | .lastTagComponent => sortByLast l
+  | .none => l
+
 /-- `merge_flattened` over sources whose own tags are all equal (the translator's case) -/
 def sfMergeFlattened (srcs : List (String × TSrc α)) : List α :=
   (dedupKeys srcs).flatMap (fun p => match p.2 with
     | .one v => [v]
-    | .many elems => (sortByLast elems).map (·.2))
+    | .many elems => (flattenSort elems).map (·.2))
 
 def sfFirstNonNull : List (Option α) → Except PickErr α
   | [] => .error .allNull
